@@ -8,7 +8,7 @@ pub fn prop() -> Prop {
     Prop {
         id: "C16",
         level: "fault_enumeration",
-        rule: "inputs: clean and noisy streams over a 7-value core (1..3 values, 4 separator kinds; thorough adds all pairs) plus three long ones (2500 rows, a 9000-character string, 700 noisy lines) faulted at the first and last 40 offsets and around 255, 256, 1 KiB, 4 KiB, 8 KiB, 16 KiB, 32 KiB, 64 KiB of the input and of the output; faults: the reader fails when asked for the byte at EVERY offset 0..=len (after 0,1,2 Interrupted results; for inputs of <=60 bytes also with 8 other io::ErrorKinds: BrokenPipe, ConnectionReset, ConnectionAborted, UnexpectedEof, TimedOut, WouldBlock, InvalidData, PermissionDenied), Interrupted at every offset without failure, stdout fails after accepting EVERY number of bytes 0..len(out) (plain, with 1- and 3-byte short writes, with Interrupted on every 2nd call), stderr likewise under --on-error=stderr, unopenable files in every position of a file list; x 4 policies x 11 pipelines (streaming, select, sort, group, --utf8-strings, text, csv, and four with --skip/--take: alone, pretty style, behind a sort, behind split and filter); inputs with \\uXXXX escapes in strings and member names; non-trivial = the fault offset falls strictly inside the input/output; distinct by construction; a file that opens but whose first read fails (/proc/self/mem) in every position of a list of <=3 files",
+        rule: "inputs: clean and noisy streams over a 7-value core (1..3 values, 4 separator kinds; thorough adds all pairs) plus three long ones (2500 rows, a 9000-character string, 700 noisy lines) faulted at the first and last 40 offsets and around 255, 256, 1 KiB, 4 KiB, 8 KiB, 16 KiB, 32 KiB, 64 KiB of the input and of the output; faults: the reader fails when asked for the byte at EVERY offset 0..=len (after 0,1,2 Interrupted results; for inputs of <=60 (thorough <=400) bytes also with 8 other io::ErrorKinds: BrokenPipe, ConnectionReset, ConnectionAborted, UnexpectedEof, TimedOut, WouldBlock, InvalidData, PermissionDenied), Interrupted at every offset without failure, stdout fails after accepting EVERY number of bytes 0..len(out) (plain, with 1- and 3-byte short writes, with Interrupted on every 2nd call), stderr likewise under --on-error=stderr, unopenable files in every position of a file list; x 4 policies x 11 pipelines (streaming, select, sort, group, --utf8-strings, text, csv, and four with --skip/--take: alone, pretty style, behind a sort, behind split and filter); inputs with \\uXXXX escapes in strings and member names; non-trivial = the fault offset falls strictly inside the input/output; distinct by construction; a file that opens but whose first read fails (/proc/self/mem) in every position of a list of <=3 files",
         explanation: "every fault point of every history is enumerated on the real code with fault-injecting Read/Write implementations; oracle: Err (not Ok, not a panic), the reader is never asked again after its failure, stdout is a prefix of the fault-free stdout; a fault the fault-free run never reaches must change nothing",
         assumptions: COMMON_ASSUMPTIONS.to_vec(),
         guards: vec!["file-whose-first-read-fails", "other-error-kinds", "raw-utf8-row-longer-than-60-bytes", "fault-beyond-8192", "read-fault-inside-value", "read-fault-at-eof", "write-fault-inside-row", "interrupted-then-error", "short-writes", "stderr-write-fault", "missing-file"],
@@ -126,7 +126,7 @@ fn run(ctx: &mut Ctx) {
                 for k in offsets(input.len() + 1) {
                     // j = 0: plain failure; 1, 2: after that many Interrupted results; 3..: other io::ErrorKinds
                     const KINDS: [&str; 8] = ["BrokenPipe", "ConnectionReset", "ConnectionAborted", "UnexpectedEof", "TimedOut", "WouldBlock", "InvalidData", "PermissionDenied"];
-                    let jmax = if input.len() <= 60 { 3 + KINDS.len() as u32 } else { 3 };
+                    let jmax = if input.len() <= ctx.tier.pick(60usize, 400) { 3 + KINDS.len() as u32 } else { 3 };
                     for j in 0..jmax {
                         let mut c = base.clone();
                         c.rplan = ReadPlan {
